@@ -87,3 +87,11 @@ Example C19_slice_io_nonvacuous :
   islice 9 (vis_mode (false, ["A"; "B"])) [("<start>", Cat [Ref "A:B:<x>"; Alt [Ref "C:D:<y>"; Ref "C:B:<z>"; Ref "C:None:<v>"]; Rep (Ref "D:C:<w>") 0 (Some 1)])] (Ref "<start>")
   = Some (Some (RCat _ (RAtom _ "A:B:<x>") (RCat _ (RAlt _ (RAtom _ "C:B:<z>") (RAlt _ (RAtom _ "C:None:<v>") (REmp _))) (REps _)))).
 Proof. vm_compute. reflexivity. Qed.
+
+(* slicing composed with forecasting, both modes: after ANY history, every message offered by the forecast of the sliced protocol passes
+   the mode's visibility test -- in the first mode its sender is kept, in the second it has no recipient or its sender or recipient is kept
+   (C19_visibility_meaning).  No message of a party that was sliced away is ever offered. *)
+Theorem C19_sliced_forecast_offers_only_visible : forall k rules fuel r m h a,
+  islice fuel (vis_mode k) rules r = Some (Some m) -> In a (fst (forecast msg macc m h)) -> vis_mode k a = true.
+Proof. intros k rules fuel r m h a. exact (sliced_forecast_visible (vis_mode k) rules fuel r m h a). Qed.
+Print Assumptions C19_sliced_forecast_offers_only_visible.
